@@ -7,7 +7,7 @@ Model of `Computable` / `Computed` (mesa_signal.py) on top of the Signals regist
 * a Computed's function is a *read tree*: what it returns depends only on what it reads, in
   the order it reads it; `write` nodes are the assignments a function may perform (cycle detection);
 * `Computed.__call__`, `Computable.__get__`, `Observable.__set__`, `_set_dirty`, `_add_parent`,
-  `_remove_parents` follow the repaired code (G4, G7, G8, G9, G10, G11, G12 repaired; G7: `Observable.__set__`
+  `_remove_parents` follow the repaired code (G4, G7, G8, G9, G10, G11, G12, G15 repaired; G7: `Observable.__set__`
   stores before it notifies, and a notification reaches the dependent Computeds before the user handlers, which may
   read Computables while being notified);
 * `proc` = `PROCESSING_SIGNALS` (what the evaluating functions have read) grows over one outermost evaluation,
@@ -295,6 +295,20 @@ def callC (rec : Rec) (c : Nat) (x : Comp) (s : St) : Option (St × R) :=
         | none => some ({ s1 with cur := s.cur }, .err .attr)
         | some x1 => some ({ (s1.setComp c { x1 with dirty := false }) with cur := s.cur }, .ok x1.value.join)
 
+/-- `Computed._sources` (G15 repaired): the Observables Computed `c` depends on — the ones its last evaluation read
+    and, through the Computables it read, the ones those depend on in turn.  The walk follows the remembered parents;
+    a function reads only Computables defined before it (smaller index), so `c + 1` levels reach everything (Python:
+    a `seen` set ends the walk) -/
+def sourcesOf (s : St) : Nat → Nat → List Key
+  | 0, _ => []
+  | f+1, c =>
+    match s.comps c with
+    | none => []
+    | some x => x.parents.flatMap fun e =>
+      match e.1 with
+      | .obs k => [k]
+      | .comp c' => sourcesOf s f c'
+
 /-- `Computable.__get__` -/
 def getC (rec : Rec) (c : Nat) (s : St) : Option (St × R) :=
   match s.comps c with
@@ -304,10 +318,14 @@ def getC (rec : Rec) (c : Nat) (s : St) : Option (St × R) :=
     | none => none
     | some (s1, .err e) => some (s1, .err e)
     | some (s1, .ok new) =>
-      -- G8 repaired: the evaluating Computed remembers the value it is handed
+      -- G8 repaired: the evaluating Computed remembers the value it is handed; G15 repaired: what the Computable
+      -- depends on goes on record as read (`PROCESSING_SIGNALS`), also when it was served from its cache
       let added : St × R := match s1.cur with
         | none => (s1, .ok none)
-        | some p => addParent s1 p (.comp c) new
+        | some p =>
+          match addParent s1 p (.comp c) new with
+          | (s2, .err e) => (s2, .err e)
+          | (s2, .ok u) => ({ s2 with proc := sourcesOf s2 (c + 1) c ++ s2.proc }, .ok u)
       match added with
       | (s2, .err e) => some (s2, .err e)
       | (s2, .ok _) =>
